@@ -200,6 +200,20 @@ pub fn judge(rep: &mut Report, prop: &str, origin: &str, ast: &AST, src: &str, r
                 rep.count("lockstep_instructions", l.steps);
                 if let Some(d) = &l.divergence {
                     rep.violation(&format!("{}:lockstep", prop), format!("{}: VM state diverges from the reference machine: {}\n{}", origin, d, clip(src)), replay.clone());
+                } else {
+                    // guard on the static validator (C02): the operand depth observed before every
+                    // executed instruction must be the depth bcvalid computed for it
+                    let v = super::super::bcvalid::validate(&decoded);
+                    if v.issues.is_empty() {
+                        for ((mi, off), d) in &l.depths {
+                            let st = v.depths.get(mi).and_then(|ds| ds.get(*off)).and_then(|x| *x);
+                            if st != Some(*d as i32) {
+                                rep.inconsistency(format!("{}: bcvalid computes depth {:?} at #{}+{}, the run observed {}\n{}", origin, st, mi, off, d, clip(src)));
+                                break;
+                            }
+                        }
+                        rep.count("static_depths_confirmed_dynamically", l.depths.len() as u64);
+                    }
                 }
             }
         }
